@@ -4,9 +4,9 @@ from props import mmr_common as mc
 ID = "C11"
 GEN_TAGS = ["MmrIndexGen"]
 PROOF_TARGETS = ["proofs/MmrProofs.vo", "proofs/MmrSmall.vo", "proofs/MmrUpdates.vo", "proofs/MmrBatch.vo", "proofs/MmrHistory.vo",
-                 "proofs/MmrIdxTie.vo"]
+                 "proofs/MmrIdxTie.vo", "proofs/MmrMutate.vo", "proofs/MmrBatchGen.vo", "proofs/MmrAllSizes.vo"]
 PROPS_FILE = "props/C11.v"
-EXTRA_PROPS_FILES = ["props/C11b.v"]
+EXTRA_PROPS_FILES = ["props/C11b.v", "props/C11c.v"]
 EXTRACT = "extract/ExtractMmr.vo"
 ORACLE = ("gen_mmr", "mmr.ml")
 HARNESS = "mmr"
@@ -28,6 +28,7 @@ ASSUMPTIONS = [
     "leaf counts < 2^63; arithmetic overflow is modelled as a panic (checked build), a release build would wrap (only for counts >= 2^63)",
     "mutations are carried out with valid membership proofs (as the property says) = the authentication path of the specification; with invalid proofs only model = implementation is checked",
     "history_commits, verify_batch_update_iff, rejects_dup_oob and bag_peaks_spec are proved in general (props/C11.v); the digest equality test deq is assumed to decide equality (derived PartialEq on Digest)",
+    "props/C11c.v (general, all leaf counts < 2^63): the validity form of mutate_leaf / batch_mutate_leaf_and_update_mps / verify_batch_update (every mutation proof that VERIFIES, not only the specification path; verify_batch_update's verdict on every such mutation list, repeated indices included), the panic on a repeated leaf index, and the binding of the peaks to the leaf list - all under the explicit hypothesis that H is collision-free (forall a b c e, H a b = H c e -> a = c /\\ b = e; the free term algebra is an instance)",
 ]
 RULE = ("SYNTHETIC accumulators MmrAccumulator::init(peaks, count) with hand-built valid proofs for bit-pattern counts up to 2^63-1 (2^k, 2^k-1, >= 33 trailing ones, count XOR index just below a power of two) through verify / append-update / mutate / batch-mutate / verify_batch_update; operation histories (append / mutate / batch-mutate / verify_batch_update with negative tweaks) of 1..300 (quick) or "
         "..3000 (thorough) operations with leaf counts steered through 2^k-1 -> 2^k; new_from_leafs for every count; "
